@@ -380,8 +380,9 @@ Lemma refuted_scalar_coupling : fixed_F3 = false ->
   wf_net N_scalar_coupling = true /\ g_scalar_plain N_scalar_coupling = false /\
   pop_run unit_poly N_scalar_coupling units22 (mkq 1 4) 2 <> Some (exp_run 0 unit_poly N_scalar_coupling units22 (mkq 1 4) 2).
 Proof.
-  intros Hflag. vm_compute in Hflag. try discriminate Hflag.
-  repeat split; try (vm_compute; reflexivity). apply otraj_neq. vm_compute. reflexivity.
+  intros Hflag. vm_compute in Hflag.
+  first [ discriminate Hflag
+        | repeat split; try (vm_compute; reflexivity); apply otraj_neq; vm_compute; reflexivity ].
 Qed.
 
 (* a scalar weight within 1e-8 of 1 is replaced by 1 *)
@@ -399,8 +400,9 @@ Lemma refuted_post_name : fixed_F2 = false ->
   wf_net N_post_name = true /\ g_post_name N_post_name = false /\
   pop_run unit_poly N_post_name units22 (mkq 1 4) 2 <> Some (exp_run 0 unit_poly N_post_name units22 (mkq 1 4) 2).
 Proof.
-  intros Hflag. vm_compute in Hflag. try discriminate Hflag.
-  repeat split; try (vm_compute; reflexivity). apply otraj_neq. vm_compute. reflexivity.
+  intros Hflag. vm_compute in Hflag.
+  first [ discriminate Hflag
+        | repeat split; try (vm_compute; reflexivity); apply otraj_neq; vm_compute; reflexivity ].
 Qed.
 
 (* loud classes: the population circuit raises, the explicit network has a value *)
